@@ -67,6 +67,17 @@ def run(chk):
                 prog = 'SI Zs,%d Q' % rng.choice([1, 100, 100000])
             cases.append(('trunc', f, c, prog))
             lines.append('src=%s %s' % (hexs(fr[:c]), prog))
+    # ---- (1b) truncation seen by a RE-USED decoder: a decoder that has just finished a frame with a checksum is given a
+    # strict prefix of another one, cut in and around its last bytes (what a stale end-of-frame state would let through)
+    ck_frames = [f for f in base if len(f['frame']) > 12 and (f['frame'][4] & 4)]
+    for f in ck_frames[:(24 if thorough else 10)]:
+        fr = f['frame']
+        first = rng.choice(ck_frames)['frame']
+        for c in sorted(set([len(fr) - 1, len(fr) - 2, len(fr) - 3, len(fr) - 4, len(fr) - 5, len(fr) - 6])):
+            # (every program starts the new frame with a reset: decode_from_to alone does not start one on a finished decoder)
+            prog = rng.choice(['I B?a Q C Q', 'I ' + 'B?b1 C ' * 4 + 'B?a C Q', 'I Zf,%d Q' % rng.choice([1, 100000])])
+            cases.append(('trunc-reused', f, c, prog))
+            lines.append('src=%s I Ba C src=%s %s' % (hexs(first), hexs(fr[:c]), prog))
     # ---- (2) exact consumption with trailing data
     for f in base:
         g = rng.bytes(rng.choice([1, 3, 4, 20]))
@@ -109,8 +120,12 @@ def run(chk):
     kinds = {}
     for i, (c, t) in enumerate(zip(cases, impl)):
         kinds[c[0] if c[0] != 'multi' else 'multi:' + c[1]] = kinds.get(c[0] if c[0] != 'multi' else 'multi:' + c[1], 0) + 1
-        if c[0] == 'trunc':
+        if c[0] in ('trunc', 'trunc-reused'):
             _, f, cut, prog = c
+            if c[0] == 'trunc-reused':
+                # only what the re-used decoder did with the prefix
+                cutpos = max(j for j, x in enumerate(t) if x == '|')
+                t = t[cutpos + 1:]
             qs = [x for x in t if x.startswith('Q:')]
             # a decoder that never got a header reports is_finished() = true by convention: not a frame state
             if any(q.split(':')[2] == '1' and q.split(':')[1] != '0' for q in qs):
